@@ -33,7 +33,7 @@ def gen_ops(ctx):
     n = 110 if quick else 1500
     pairs, kinds = [], []
     for i in range(n):
-        s = L.Gen(rng).schema(chain=(i % 5 == 4))
+        s = L.Gen(rng).schema(chain=(i % 5 == 4), shared=(i % 3 == 0))   # shared: one inner type fed by several masks
         if i % 4 == 0:
             pairs.append((s.tl(), s.tl()))
             kinds.append("refl")
